@@ -39,7 +39,7 @@ class CallMixin:
             if name in ("old", "implies", "result", "use", "hint", "iff", "fresh_ref", "subset", "union", "setminus", "mapdom",
                         "singleton", "setadd", "setdel", "mapset", "mapdel", "seqlen", "issub", "isinst", "typeof", "ite", "mapget",
                         "emptyset", "length", "inter", "exc_is", "some", "unopt", "isnone", "const", "cast", "elems", "distinct",
-                        "str_init", "str_last", "str_first", "has", "aslist", "inside", "confined", "rec_has", "rec_get", "rec_set", "log_count", "log_arg", "log_result", "log_result_field", "log_raised", "module", "lower", "alph", "charset", "alnum_chars", "raised", "as_any", "as_data"):
+                        "str_init", "str_last", "str_first", "has", "aslist", "inside", "confined", "rec_has", "rec_get", "rec_set", "log_count", "log_arg", "log_result", "log_result_field", "log_raised", "module", "lower", "alph", "charset", "alnum_chars", "raised", "as_any", "as_data", "str_encode", "bytes_decode"):
                 return Callable_("dslfn", name)
         mod = env.get("__mod__")
         if mod is not None:
@@ -868,8 +868,10 @@ class CallMixin:
                 f = z3.Function("str_" + meth, z3.StringSort(), z3.StringSort())
                 self.note_assumption("str.%s() is an uninterpreted function of the string" % meth)
                 yield st, mk_str(f(obj.t))
+            elif meth == "decode" and isinstance(ty, TBytes):
+                yield st, mk_str(self.bytes_decode(obj.t, self._codec_name(args, kwargs, node), st))
             elif meth == "encode" and isinstance(ty, TStr):
-                yield st, Val(Bytes, [self.utf8(obj.t, st)])
+                yield st, Val(Bytes, [self.str_encode(obj.t, self._codec_name(args, kwargs, node), st)])
             else:
                 raise Unsupported("str.%s" % meth, node)
             return
@@ -966,9 +968,31 @@ class CallMixin:
         raise Unsupported("conversion of %r to set" % (x,), node)
 
     def utf8(self, s, st):
-        f = z3.Function("utf8", z3.StringSort(), z3.StringSort())
-        self.note_assumption("str.encode('utf-8') is an injective function utf8 (uninterpreted)")
-        return f(s)
+        return self.str_encode(s, "utf-8", st)
+
+    def _codec_name(self, args, kwargs, node):
+        c = args[0] if args else kwargs.get("encoding")
+        if c is None:
+            return "utf-8"
+        t = z3.simplify(c.t) if isinstance(c, Val) and isinstance(c.ty, TStr) else None
+        if t is None or not z3.is_string_value(t):
+            raise Unsupported("codec name is not a literal", node)
+        return t.as_string().lower().replace("_", "-")
+
+    def str_encode(self, s, codec, st):
+        """s.encode(codec): an uninterpreted function per codec with the codec law decode(encode(s)) == s instantiated at this term
+        (texts the codec cannot encode - lone surrogates for utf-8 - are assumed away)"""
+        enc = z3.Function("str_encode!%s" % codec, z3.StringSort(), z3.StringSort())
+        dec = z3.Function("bytes_decode!%s" % codec, z3.StringSort(), z3.StringSort())
+        t = enc(s)
+        st.axiom(dec(t) == s)
+        self.note_assumption("str.encode(%r) / bytes.decode(%r) are uninterpreted functions with decode(encode(s)) == s (encodable texts only)" % (codec, codec))
+        return t
+
+    def bytes_decode(self, b, codec, st):
+        dec = z3.Function("bytes_decode!%s" % codec, z3.StringSort(), z3.StringSort())
+        self.note_assumption("bytes.decode(%r) is an uninterpreted function (undecodable bytes are assumed away)" % codec)
+        return dec(b)
 
     def rec_method(self, obj, meth, args, kwargs, st, node, lv):
         ty = obj.ty
